@@ -269,7 +269,20 @@ class Unit:
                     continue
                 ret, ps = sig
                 plist = ', '.join('%s a%d' % (p_, i_) for i_, p_ in enumerate(ps)) or 'void'
-                if self.autostub == 'havoc':
+                if cal.endswith('__delete') and len(ps) == 1:
+                    # delete of an object of a class outside the unit: the destructor is not modelled, the deallocation is
+                    out.append('%s %s(%s) { free(a0); }' % (ret, cal, plist))
+                    info.setdefault('bodystubs', []).append(cal)
+                    continue
+                if self.autostub == 'streamframe':
+                    # contract-only callee: may write the stream it is given (and nothing else), result arbitrary
+                    sp = [i_ for i_, p_ in enumerate(ps) if 'struct vstream' in p_]
+                    if sp:
+                        a_ = 'a%d' % sp[0]
+                        out.append('%s %s(%s) __CPROVER_requires(__CPROVER_rw_ok(%s, sizeof(struct vstream))) __CPROVER_ensures(1) __CPROVER_assigns(%s->pos, __CPROVER_object_whole(%s->buf));' % (ret, cal, plist, a_, a_, a_))
+                    else:
+                        out.append('%s %s(%s) __CPROVER_requires(1) __CPROVER_ensures(1) __CPROVER_assigns();' % (ret, cal, plist))
+                elif self.autostub == 'havoc':
                     # the callee is outside this obligation: it returns an arbitrary value and changes nothing the caller can see
                     if '__ctor' in cal and ps:
                         body = 'return a0;'      # a constructor returns the object it was given; its fields stay arbitrary
